@@ -140,6 +140,7 @@ static sigjmp_buf crash_jb;
 static bool crash_jb_armed = false;
 static sigjmp_buf prep_jb;
 static bool prep_armed = false;
+static Engine *prep_engine = nullptr;
 
 struct ViolationEx {};
 struct StopEx {};
@@ -886,7 +887,7 @@ static void task_entry() {
 static void crash_handler(int sig, siginfo_t *si, void *) {
 	Run *r = R;
 	const char *name = sig == SIGSEGV ? "SIGSEGV" : sig == SIGBUS ? "SIGBUS" : sig == SIGILL ? "SIGILL" : sig == SIGFPE ? "SIGFPE" : "SIG?";
-	if (prep_armed) siglongjmp(prep_jb, 1);
+	if (prep_armed) { if (sig == SIGSEGV && prep_engine && prep_engine->on_fault(si->si_addr) == 1) return; siglongjmp(prep_jb, 1); }
 	if (!r || !r->active) { signal(sig, SIG_DFL); raise(sig); return; }
 	if (sig == SIGSEGV) {
 		int h = r->eng->on_fault(si->si_addr);
@@ -1001,7 +1002,7 @@ RunResult execute(Engine *e, const Plan &p) {
 		}
 	}
 	// prepare() runs code under test outside a run (calibration): a panic or crash there must not kill the worker
-	prep_armed = true;
+	prep_armed = true; prep_engine = e;
 	if (sigsetjmp(prep_jb, 1) == 0) e->prepare(p);
 	prep_armed = false;
 	wd_run_id++;
